@@ -24,8 +24,11 @@ THEOREMS = [
     "Docstring.reported_once", "Docstring.second_call_silent", "Docstring.isolation",
     "Docstring.summary_fallback_touches_source",
     "Docstring.epytext_raises_iff_fatal",
+    "Docstring.slugify_terminates", "Docstring.slugify_loops_without_distinct_candidates",
 ]
 PARTIAL = {
+    "Docstring.slugify_terminates": "hypothesis: the candidates slugify(text), slugify(text-1), … are pairwise distinct (true of the real "
+        "slugify, checked per case by the harness; slugify_loops_without_distinct_candidates shows it is needed)",
     "Docstring.parse_fallback_full_text": "the 'exactly one report group' half needs: the parser stored at least one error "
         "before raising ParseError (epytext does: epytext_raises_iff_fatal) and the object was not reported before",
     "Docstring.render_failure_reported": "needs: the object was not reported before in this section "
@@ -510,6 +513,11 @@ def run_ops(w: World, ops, stan_role=None, limit: float = 20.0):
             ent["raised"] = e
             tok = "raise:" + exc_token(e)
         ent["tok"] = tok
+        if ent["hang"]:
+            ent["nreports"] = 0
+            outs.append(tok)
+            trace.append(ent)
+            break   # the object's state is undefined now and the next call would hang as well
         ent["nreports"] = sum(1 for r in w.reports if r[2] == "docstring" and r[1].startswith("bad docstring: "))
         outs.append(tok)
         trace.append(ent)
@@ -1063,8 +1071,48 @@ def gen_epytext_warn_then_fatal(rng) -> str:
     return "\n\n".join(parts) + rng.choice(["", "\n"])
 
 
+LONG_HEADINGS = [
+    "Differences between the synchronous and the asynchronous API when reading",
+    "Differences between the synchronous and the asynchronous API when writing",
+    "A deliberately long section heading that goes on and on well past any sensible limit for an anchor name in a URL",
+    "A deliberately long section heading that goes on and on well past any sensible limit for an anchor name in a link",
+]
+SHORT_HEADINGS = ["Usage", "Usage-1", "Usage-2", "Notes", "usage", "See also", "API", "A-1", "A"]
+ODD_HEADINGS = ["!!!", "???", "...", "\u4e2d\u6587\u6807\u9898", "\u65e5\u672c\u8a9e", "-", "- -", "1", "-1", "#1 & #2"]
+
+
+def gen_heading_docstring(rng) -> str:
+    """2-4 section headings (epytext and reST share the underline syntax): identical short / identical long / long differing
+    in the last word / slugs that are empty / a heading equal to another one plus '-1'"""
+    kind = rng.randrange(6)
+    n = rng.randint(2, 4)
+    if kind == 0:
+        hs = [rng.choice(SHORT_HEADINGS[:3])] * n
+    elif kind == 1:
+        hs = [rng.choice(LONG_HEADINGS)] * n
+    elif kind == 2:
+        pair = LONG_HEADINGS[:2] if rng.random() < 0.5 else LONG_HEADINGS[2:]
+        hs = [pair[j % 2] for j in range(n)]
+    elif kind == 3:
+        hs = [rng.choice(ODD_HEADINGS) for _ in range(n)]
+    elif kind == 4:
+        h = rng.choice(SHORT_HEADINGS + LONG_HEADINGS)
+        hs = [h, h + "-1", h][:n] + ([h + "-1"] if n == 4 else [])
+    else:
+        hs = [rng.choice(SHORT_HEADINGS + LONG_HEADINGS + ODD_HEADINGS) for _ in range(n)]
+    parts = [rng.choice(["Intro sentence.", "Storage back-ends.", ""])]
+    for j, h in enumerate(hs):
+        ch = "=" if (j == 0 or rng.random() < 0.7) else "-"
+        width = len(h) * (2 if any(ord(c) > 0x2e80 for c in h) and rng.random() < 0.5 else 1)
+        parts.append("%s\n%s" % (h, ch * width))
+        parts.append(rng.choice(["Text under the heading.", "Reads block until the data is there.", "x"]))
+    return "\n\n".join(p for p in parts if p) + "\n"
+
+
 # past failures, run first in every real stream (the minimal forms of the inputs behind the known findings)
 REGRESSION_DOCS = [
+    "Storage back-ends.\n\n" + LONG_HEADINGS[0] + "\n" + "=" * len(LONG_HEADINGS[0]) + "\n\nReads block until the data is there.\n\n"
+    + LONG_HEADINGS[1] + "\n" + "=" * len(LONG_HEADINGS[1]) + "\n\nWrites are queued.\n",
     "Frobnicate the widget.\n\n@note this field item lacks its colon\n\nDetails about the frobnication follow.\n"
     "    This continuation line is indented too far and must not be lost.\n",
     "Run the job.\n\nPage one of the notes,\x0ccontinued after an odd character.\nPage two of the notes.",
@@ -1080,6 +1128,8 @@ def gen_real_docstring(rng) -> Tuple[str, str]:
     r = rng.random()
     if r < 0.08:
         return "epytext-warning-then-fatal", gen_epytext_warn_then_fatal(rng)
+    if r < 0.16:
+        return "section-headings", gen_heading_docstring(rng)
     if r < 0.4:
         f = rng.choice(list(FRAGMENTS))
         return "fragments:" + f, gen_fragments(rng, f)
@@ -1414,6 +1464,20 @@ def real_oracle(ctx: Ctx, w: World, fmt: str, pt: int, x: int, doc: str, td: int
                      % (type(fresh_exc).__name__, len(hidden), len(shown), "".join(t["op"] for t in trace if t["obj"] == x)))
             elif hold not in errs_now:
                 fail("render-fallback:not-reported", "to_stan failed and the object the docstring is written on is not among the reported objects")
+    # section anchors: pairwise distinct in the body, and every link of the table of contents leads to one of them
+    lastd = next((t for t in reversed(shown) if t["flat_err"] is None and not t["body"].startswith("pre:")), None)
+    lastt = next((t for t in reversed(trace) if t["op"] == "t" and t["obj"] == x and t["stan"] is not None and not t["flat_err"]), None)
+    if lastd is not None:
+        bh, _ = flatten_safely(lastd["stan"])
+        ids = re.findall(r'\bid="([^"]*)"', bh or "")
+        if len(ids) != len(set(ids)):
+            fail("anchors:duplicate-id", "two elements of one rendered docstring carry the same id (%s)" % sorted(i for i in set(ids) if ids.count(i) > 1)[0][:60])
+        if lastt is not None:
+            th, _ = flatten_safely(lastt["stan"])
+            for href in re.findall(r'href="#([^"]*)"', th or ""):
+                if href not in ids:
+                    fail("anchors:toc-link-without-target", "an entry of the table of contents links to #%s, which the body does not define" % href[:60])
+                    break
     firsts: Dict[str, str] = {}
     for t in trace:
         if t["obj"] == BYSTANDER:
@@ -1472,6 +1536,60 @@ def surrogate_case(ctx: Ctx, fmt: str, pt: int, doc: str, limit: float) -> None:
         ctx.count("surrogate:objects")
 
 
+# ------------------------------------------------------------------ epytext _slugify stream
+
+def slug_case(text: str, used: List[str], limit: float = 2.0):
+    """(request, impl answer, oracle verdict or None)"""
+    from pydoctor.epydoc.markup import epytext
+    cands = [epytext.slugify(text)] + [epytext.slugify("%s-%d" % (text, i)) for i in range(1, len(set(used)) + 2)]
+    req = "docstring slug U " + " ".join(enc(u) for u in used) + " C " + " ".join(enc(c) for c in cands)
+    pd = epytext.ParsedEpytextDocstring(None, ())
+    pd._section_slugs = set(used)
+    verdict = None
+    try:
+        with time_limit(limit):
+            r = pd._slugify(text)
+        impl = "ok " + enc(r)
+        if r in used:
+            verdict = ("slugify:returned-used-slug", "_slugify returned an anchor that is already taken")
+    except Hang:
+        impl = "loops"
+        verdict = ("hang:_slugify", "ParsedEpytextDocstring._slugify did not return: the candidates slugify(text), slugify(text-1), … "
+                   "are not pairwise distinct, so the loop that makes section anchors unique never finds a free one")
+    if verdict is None and len(set(cands)) != len(cands):
+        verdict = ("slugify:candidates-not-distinct", "slugify(text-i) does not depend on i for this heading: the uniquifying loop "
+                   "cannot terminate once the anchor is taken")
+    return req, impl, verdict
+
+
+def slug_stream(ctx: Ctx, n: int, max_hangs: int) -> None:
+    from pydoctor.epydoc.markup import epytext
+    pool = SHORT_HEADINGS + LONG_HEADINGS + ODD_HEADINGS
+    reqs, impls, pay = [], [], []
+    hangs = 0
+    for k in range(n):
+        if hangs >= max_hangs:
+            ctx.count("slug:not-run-after-hangs")
+            continue
+        text = rng_text = ctx.rng.choice(pool) if ctx.rng.random() < 0.8 else gen_unicode(ctx.rng)[:40]
+        m = ctx.rng.randint(0, 5)
+        used = [epytext.slugify(text)] + [epytext.slugify("%s-%d" % (text, i)) for i in range(1, m)] if m else []
+        used = [u for u in used if ctx.rng.random() < 0.85]
+        used += [epytext.slugify(ctx.rng.choice(pool)) for _ in range(ctx.rng.randint(0, 2))]
+        used = sorted(set(used))
+        req, impl, verdict = slug_case(text, used)
+        hangs += impl == "loops"
+        inp = {"kind": "slug", "text": text, "used": used}
+        if verdict:
+            ctx.fail(verdict[0], inp, verdict[1])
+        ctx.case(req, bool(used) and impl != "ok " + enc(epytext.slugify(text)), None)
+        ctx.count("slug:cases")
+        reqs.append(req)
+        impls.append(impl)
+        pay.append(inp)
+    ctx.compare("epytext._slugify~Docstring.slugLoop", reqs, impls, pay)
+
+
 # ------------------------------------------------------------------ run
 
 def check_no_overrides(ctx: Ctx) -> None:
@@ -1521,7 +1639,9 @@ def run(ctx: Ctx) -> None:
     ctx.exhaustive = True
     # ---- (b) real parsers
     nstr = 350 if ctx.quick else 850
-    limit = 20.0
+    limit = 8.0 if ctx.quick else 20.0     # per entry-point call; a case stops at its first hang
+    max_hangs = 3                            # after that the violation is established: do not burn the tier's budget
+    hangs = 0
     reqs, impls, pay = [], [], []
     sreqs, simpls, spay = [], [], []
     with instrument(w), record_patches(w):
@@ -1533,13 +1653,20 @@ def run(ctx: Ctx) -> None:
                 combos = [(f, (n + fi) % 2, XS[(n + fi) % 5]) for fi, f in enumerate("ergnp")]
             else:
                 combos = [(f, pt, x) for f in "ergnp" for pt in (0, 1) for x in XS]
+            if hangs >= max_hangs:
+                ctx.count("real:strings-not-run-after-%d-hangs" % max_hangs)
+                continue
             for ci, (fmt, pt, x) in enumerate(combos):
+                if hangs >= max_hangs:
+                    break
                 td = [0, 1, 3][(n + ci) % 3]
                 try:
                     req, line, trace, rec = run_real_case(w, fmt, pt, x, doc, td, limit, n + ci)
                 except Hang:
                     ctx.fail("hang:observe", {"kind": "real", "fmt": fmt, "pt": pt, "x": x, "td": td, "doc": doc}, "re-rendering hung")
+                    hangs += 1
                     continue
+                hangs += any(t["hang"] for t in trace)
                 nontriv = real_oracle(ctx, w, fmt, pt, x, doc, td, trace, rec, stream)
                 canonical = "real %s %d %d %s" % (fmt, pt, x, enc(doc))
                 ctx.case(canonical, nontriv, {"docformat": FMT_OF[fmt], "processtypes": pt, "kind": KINDS[x], "docstring": doc[:200],
@@ -1565,6 +1692,8 @@ def run(ctx: Ctx) -> None:
                         spay.append({"kind": "real", "fmt": fmt, "pt": pt, "x": x, "td": td, "doc": doc})
     ctx.compare("real-parsers~Docstring.run", reqs, impls, pay)
     ctx.compare("epytext.parse~Docstring.epytextSignal", sreqs, simpls, spay)
+    # ---- (b2) epytext's anchor-uniquifying loop: the real ParsedEpytextDocstring._slugify vs slugLoop (slugify is the parameter)
+    slug_stream(ctx, 300 if ctx.quick else 5000, max_hangs)
     # ---- (c) lone surrogates (oracle only: they cannot travel to the model)
     nsur = 6 if ctx.quick else 60
     for n in range(nsur):
@@ -1596,6 +1725,13 @@ def replay(ctx: Ctx, obj) -> int:
         print("docstring:", repr(inp["doc"]))
         print("request:", req)
         print("impl   :", line)
+    elif inp.get("kind") == "slug":
+        n0 = len(ctx.failures)
+        req, impl, verdict = slug_case(inp["text"], inp["used"])
+        print("heading:", repr(inp["text"]), "used:", inp["used"])
+        print("impl   :", impl)
+        if verdict:
+            ctx.fail(verdict[0], inp, verdict[1])
     elif inp.get("kind") == "surrogate":
         n0 = len(ctx.failures)
         surrogate_case(ctx, inp["fmt"], inp["pt"], ast.literal_eval(inp["doc_repr"]), 20.0)
